@@ -118,7 +118,10 @@ def run(ctx):
                        "MultipolygonManager is covered through its base class RelationsManager only",
                        "every third simulated scenario is replayed a second time with member objects padded to a quarter of the "
                        "stash buffer, so that ItemStash's automatic garbage collection (threshold lowered by "
-                       "OSMIUM_VERIF_STASH_GC_MIN=2) runs inside add_item() in the middle of the scenario"]
+                       "OSMIUM_VERIF_STASH_GC_MIN=2) runs inside add_item() in the middle of the scenario",
+                       "family wide: exported scenarios replayed with one tracked member-list entry listed 2^8 / 2^16 times in a row "
+                       "(RelMgr.tla counts list entries, so callbacks, pending count and held objects are unchanged and the probe has "
+                       "the entry repeated); relations with >= 2^16 DISTINCT members are not generated"]
 
 
 def replay(ctx, path):
